@@ -74,9 +74,9 @@ C14_EPOLL = [
     H("ioep", "ep_stop", 3, 4),
 ] + [H("ioep", "ep_timer", 3, 4, args=[m]) for m in (0, 1, 2, 3, 4)] + [
     H("ioep", "ep_pipe", 3, 4, args=list(a)) for a in ((2, 3, 2, 0), (2, 3, 2, 1), (4, 2, 4, 2), (1, 2, 2, 0), (4, 4, 1, 0))] + [
-    H("ioep", "ep_cancel", 3, 4, args=list(a), **{"cache-bits": 24}) for a in ((0, 2), (1, 2), (2, 2), (0, 0), (1, 0), (2, 0))] + [
-    H("ioep", "ep_cancel_w", 3, 4, args=[m], **{"cache-bits": 24}) for m in (0, 1, 2)] + [
-    H("ioep", "ep_reuse", 3, 4, args=[m], **{"cache-bits": 24}) for m in (0, 1)] + [
+    H("ioep", "ep_cancel", 2, 4, args=list(a), **{"cache-bits": 24}) for a in ((0, 2), (1, 2), (2, 2), (0, 0), (1, 0), (2, 0))] + [
+    H("ioep", "ep_cancel_w", 2, 4, args=[m], **{"cache-bits": 24}) for m in (0, 1, 2)] + [
+    H("ioep", "ep_reuse", 2, 4, args=[m], **{"cache-bits": 24}) for m in (0, 1)] + [
     H("ioep", "ep_fault", 2, 3, args=list(a)) for a in ((0, 0, 1, 5), (0, 0, 0, 5), (0, 1, 1, 5), (0, 1, 0, 5), (1, 0, 1, 5), (1, 0, 0, 5), (1, 1, 1, 5), (1, 1, 0, 5), (0, 0, 1, 9), (1, 0, 1, 32))]
 C14_TIMER3 = [
     H("ioep", "ep_timer3", 1, 2, args=[1, 1], **{"cache-bits": 24}), H("iour", "ur_timer3", 1, 2, args=[1, 1], **{"cache-bits": 24}),
@@ -87,8 +87,8 @@ C14_URING = [
     H("iour", "ur_stop", 3, 4),
 ] + [H("iour", "ur_timer", 3, 4, args=[m]) for m in (0, 1, 2, 3, 4)] + [
     H("iour", "ur_file", 3, 4, args=list(a)) for a in ((3, 4, 0), (3, 4, 1), (6, 4, 2), (1, 8, 0))] + [
-    H("iour", "ur_cancel", 3, 4, args=list(a), **{"cache-bits": 24}) for a in ((0, 2), (1, 2), (2, 2), (0, 0), (1, 0), (2, 0))] + [
-    H("iour", "ur_cancel_w", 3, 4, args=[m], **{"cache-bits": 24}) for m in (0, 1, 2)] + [
+    H("iour", "ur_cancel", 2, 4, args=list(a), **{"cache-bits": 24}) for a in ((0, 2), (1, 2), (2, 2), (0, 0), (1, 0), (2, 0))] + [
+    H("iour", "ur_cancel_w", 2, 4, args=[m], **{"cache-bits": 24}) for m in (0, 1, 2)] + [
     H("iour", "ur_full", 2, 3, args=[3, 0], **{"cache-bits": 24}), H("iour", "ur_full", 2, 3, args=[3, 1], **{"cache-bits": 24}),
     H("iour", "ur_cq_budget", 1, 2), H("iour", "ur_cq_budget_feed", 2, 3, args=[5], **{"cache-bits": 24}),
     H("iour", "ur_fault", 2, 3, args=[0, 5]), H("iour", "ur_fault", 2, 3, args=[1, 5]), H("iour", "ur_fault", 2, 3, args=[0, 9]),
@@ -271,6 +271,8 @@ def tsan_items(items, q=1, t=2):
         seen.add(key)
         d = dict(h)
         d.update({"flavour": "tsan", "quick": min(h.get("quick", 2), q), "thorough": min(h.get("thorough", 3), t), "weight": 0.4 * h.get("weight", 1.0)})
+        if h["harness"] in ("tim_three", "ep_timer3", "ur_timer3"):
+            d["thorough_only"] = True   # (does not finish bound 0 inside a quick share under ThreadSanitizer)
         out.append(d)
     return out
 
